@@ -392,6 +392,8 @@ impl<'a> Interpreter<'a> {
                             CelValue::Dyn(d) => {
                                 stack.push_val(d.access(ident.as_str()));
                             }
+                            // a member of a failed receiver is that failure
+                            CelValue::Err(_) => stack.push_val(obj),
                             _ => {
                                 if let Some(bindings) = self.bindings {
                                     if bindings.get_func(ident.as_str()).is_some()
@@ -491,6 +493,8 @@ impl<'a> Interpreter<'a> {
                                     }
                                     Err(failed) => stack.push_val(failed),
                                 },
+                                // calling a member of a failed receiver is that failure
+                                err @ CelValue::Err(_) => stack.push_val(err),
                                 other => stack.push_val(
                                     CelValue::from_err(CelError::runtime(&format!(
                                         "{:?} cannot be called",
